@@ -40,7 +40,7 @@ Proof. exact step_when_dead. Qed.
 
 (* (d) terminate(force=True) of a process worker leaves the child dead, whatever its class *)
 Theorem C04_force_terminate_kills :
-  forall k s t, k <> KThread -> consistent s -> alive (fst (step k s (Terminate t true))) = false.
+  forall k s t, is_process_kind k = true -> consistent s -> alive (fst (step k s (Terminate t true))) = false.
 Proof. exact terminate_force_kills. Qed.
 
 Example C04_example_stopped_child :
